@@ -46,7 +46,11 @@ def run_native_once(exe, data, tmp):
     p = os.path.join(tmp, 'native-input-%d' % os.getpid())
     with open(p, 'wb') as f:
         f.write(data)
-    r = subprocess.run([exe, p], capture_output=True, text=True, errors='replace')
+    try:
+        r = subprocess.run([exe, p], capture_output=True, text=True, errors='replace', timeout=300)
+    except subprocess.TimeoutExpired:
+        os.unlink(p)
+        return 'native:hang', 'the target did not return within 300 s on this input alone'
     os.unlink(p)
     if r.returncode == 0:
         return None
@@ -171,8 +175,20 @@ def finish_campaigns(ctx, mod):
             with open(u, 'rb') as f:
                 ctx.sample({'entry': 'native', 'text': f.read().decode('latin-1')})
         arts = glob.glob(art + '*')
-        if arts and finding is None:
-            with open(sorted(arts)[0], 'rb') as f:
+        # a 'timeout-*' (or 'slow-unit-*') artifact is a wall-clock observation: on a loaded machine a unit
+        # that normally takes microseconds can be descheduled beyond -timeout.  It counts only if the input
+        # is slow or crashes again when replayed alone (a time limit hit is inconclusive, never a violation)
+        hard = [a for a in sorted(arts) if not os.path.basename(a)[len(os.path.basename(art)):].startswith(('timeout-', 'slow-unit-'))]
+        soft = [a for a in sorted(arts) if a not in hard]
+        for a in soft:
+            with open(a, 'rb') as f:
+                data = f.read()
+            if run_native_once(exe, data, tmp) is not None and finding is None:
+                finding = ('native', data, log[-3000:])
+            else:
+                ctx.classes['native-timeout-artifact-not-reproduced'] += 1
+        if hard and finding is None:
+            with open(hard[0], 'rb') as f:
                 data = f.read()
             finding = ('native', data, log[-3000:])
         elif p.returncode not in (0, None) and not arts and 'ERROR' in log and finding is None:
